@@ -5,7 +5,7 @@ Model: coq/theories/Gen/Builder.v, coq/theories/Gen/Factory.v (agree / holds_b).
 import itertools
 import random as pyrandom
 
-from common import c_bool, c_list, c_nat, c_opt, c_str
+from common import c_bool, c_list, c_nat, c_opt, c_str, c_Z
 
 from golem.core.optimisers.opt_graph_builder import OptGraphBuilder, merge_opt_graph_builders
 
@@ -48,15 +48,15 @@ def c_ops(ops):
 def c_call(c):
     k = c[0]
     if k == 'AddNode':
-        return '(AddNode %s %s %s %s)' % (c_nat(c[1]), c_ostr(c[2]), c_nat(c[3]), c_nat(c[4]))
+        return '(AddNode %s %s %s %s)' % (c_nat(c[1]), c_ostr(c[2]), c_Z(c[3]), c_nat(c[4]))
     if k == 'AddSequence':
-        return '(AddSequence %s %s %s)' % (c_nat(c[1]), c_ops(c[2]), c_nat(c[3]))
+        return '(AddSequence %s %s %s)' % (c_nat(c[1]), c_ops(c[2]), c_Z(c[3]))
     if k == 'GrowBranches':
         return '(GrowBranches %s %s)' % (c_nat(c[1]), c_ops(c[2]))
     if k == 'AddBranch':
-        return '(AddBranch %s %s %s)' % (c_nat(c[1]), c_ops(c[2]), c_nat(c[3]))
+        return '(AddBranch %s %s %s)' % (c_nat(c[1]), c_ops(c[2]), c_Z(c[3]))
     if k == 'AddSkip':
-        return '(AddSkip %s)' % ' '.join(c_nat(x) for x in c[1:6])
+        return '(AddSkip %s %s)' % (c_nat(c[1]), ' '.join(c_Z(x) for x in c[2:6]))
     if k == 'JoinBranches':
         return '(JoinBranches %s %s %s)' % (c_nat(c[1]), c_ostr(c[2]), c_nat(c[3]))
     if k in ('Reset', 'ToNodes', 'Build'):
@@ -238,14 +238,17 @@ def alphabet(tier_full):
     """the small argument alphabet: every method, in-range / out-of-range indices, None
     operations, '' and (None, params) operations, two builder objects"""
     a = [
-        ['AddNode', 0, 'a', 0, 0], ['AddNode', 0, 'b', 1, 1], ['AddNode', 0, None, 0, 0], ['AddNode', 0, 'c', 5, 0],
-        ['AddSequence', 0, ['a', 'b'], 0], ['AddSequence', 0, ['c', None, ['b', 1]], 1],
-        ['GrowBranches', 0, ['a', 'b']], ['GrowBranches', 0, [None, 'c', 'a']],
-        ['AddBranch', 0, ['a', 'b'], 0], ['AddBranch', 0, [None, 'c'], 1], ['AddBranch', 0, ['a', [None, 1]], 7],
+        ['AddSequence', 0, ['a', 'b'], 0], ['GrowBranches', 0, ['a', 'b']], ['AddBranch', 0, ['a', 'b'], 0],
         ['AddSkip', 0, 0, 0, 0, 2], ['AddSkip', 0, 0, 1, 0, 0], ['AddSkip', 0, 1, 0, 1, 0], ['AddSkip', 0, 0, 0, 2, 0],
-        ['AddSkip', 0, 0, 3, 0, 0], ['AddSkip', 0, 0, 0, 0, 9],
-        ['JoinBranches', 0, 'j', 0], ['JoinBranches', 0, None, 0],
-        ['Reset', 0], ['Build', 0], ['Merge', 0, 1], ['Merge', 1, 0], ['Merge', 0, 0],
+        ['JoinBranches', 0, 'j', 0], ['Merge', 0, 0], ['AddNode', 0, 'b', 1, 1],
+        ['AddNode', 0, 'c', -1, 0], ['AddBranch', 0, ['a', [None, 1]], -2], ['AddSkip', 0, -1, 0, -1, -2],
+        ['AddNode', 0, 'a', 0, 0], ['AddNode', 0, None, 0, 0], ['AddNode', 0, 'c', 5, 0], ['AddNode', 0, 'd', -3, 0],
+        ['AddSequence', 0, ['c', None, ['b', 1]], 1], ['AddSequence', 0, ['a', 'b'], -4],
+        ['GrowBranches', 0, [None, 'c', 'a']],
+        ['AddBranch', 0, [None, 'c'], 1], ['AddBranch', 0, ['a', 'c'], 7], ['AddBranch', 0, ['a', 'b'], -5],
+        ['AddSkip', 0, 0, 3, 0, 0], ['AddSkip', 0, 0, 0, 0, 9], ['AddSkip', 0, -3, 0, 0, 0], ['AddSkip', 0, 0, 0, -9, 0],
+        ['JoinBranches', 0, None, 0],
+        ['Reset', 0], ['Build', 0], ['Merge', 0, 1], ['Merge', 1, 0],
         ['AddNode', 1, 'x', 0, 0], ['GrowBranches', 1, ['x', 'y']],
     ]
     if tier_full:
@@ -262,7 +265,7 @@ def random_call(r, nb):
         return r.choice([None, 'a', 'b', 'c', ''])
 
     def idx():
-        return r.choice([0, 0, 1, 1, 2, 3, 6])
+        return r.choice([0, 0, 0, 1, 1, 2, 3, 6, -1, -1, -2, -3, -7])
     b = r.randrange(nb + 1) if r.random() < 0.1 else r.randrange(nb)
     k = r.choice(['AddNode', 'AddNode', 'AddSequence', 'GrowBranches', 'GrowBranches', 'AddBranch', 'AddBranch',
                   'AddSkip', 'AddSkip', 'AddSkip', 'JoinBranches', 'Reset', 'ToNodes', 'Build', 'Merge', 'Merge'])
@@ -275,7 +278,7 @@ def random_call(r, nb):
     if k == 'AddBranch':
         return [k, b, [op() for _ in range(r.randrange(4))], idx()]
     if k == 'AddSkip':
-        return [k, b, idx(), idx(), r.randrange(6), r.randrange(6)]
+        return [k, b, idx(), idx(), r.randrange(-6, 6), r.randrange(-6, 6)]
     if k == 'JoinBranches':
         return [k, b, sop(), r.choice([0, 0, 1])]
     if k == 'Merge':
@@ -298,6 +301,7 @@ def eval_builder(ctx, group, items, canary=False):
         # canary 1: pretend that build() returned a graph sharing nodes with the builder
         # canary 2: pretend that the skip connection closed a cycle
         k, calls = 1, [['AddSequence', 0, ['a', 'b', 'c'], 0], ['Build', 0]]
+        assert k == 1
         obs = Sim(k).run(calls)
         assert obs[1]['ret'][0] == 'ORGraph'
         obs[1]['ret'][6] = False
@@ -345,7 +349,7 @@ def run_builder(ctx):
     items = []
     # exhaustive: all sequences up to length 2 (quick) / 3 (thorough) over the whole alphabet with
     # a Build epilogue; sequences of the maximal length over the core alphabet
-    core = [c for c in alpha if c[0] not in ('Reset',) and c[1] == 0][:ctx.pick(14, 16)]
+    core = alpha[:ctx.pick(13, 17)]
     for n in range(1, max_len):
         for seq in itertools.product(alpha, repeat=n):
             items.append((2, list(seq) + EPILOGUE))
